@@ -715,7 +715,7 @@ func minimize(c Case, sig string) Case {
 	return c
 }
 
-const rule = "histories of 1-50 steps over 1-6 channel slots and 2-5 peer identities (1-entry wire address maps; in a quarter of the cases identities " +
+const rule = "histories of 1-50 steps over 1-6 channel slots and 2-5 peer identities (1-entry wire address maps; in a fifth of the cases identities " +
 	"may have 2-entry maps with backend ids 0 and 1) on one keyvalue.PersistRestorer over faultkv(memorydb | LevelDB, a fifth): create a channel in an " +
 	"empty slot (2-3 participants = distinct identities, with/without a live parent, fresh nonce so re-creation gives new params; half of the creations are followed by the usual opening Init, Sig, AddSig, EnableInit, SetFunded as ordinary steps), apply a phase-aware " +
 	"operation of the persisting state machine to a live channel (alphabet of C10), or remove a live channel directly (Persister.ChannelRemoved, any phase) " +
